@@ -113,6 +113,20 @@ def run(chk):
     for row in rows:
         if row['sem']['cls'] in ('atomic.rmw', 'atomic.cmpxchg'):
             c19.check_function(chk, bhtu, row, 'be', callees, rule='R16.5')
+            # the mutex-based flavours compute the operation themselves (old op2 operand): evaluated on concrete bytes and operands, each
+            # must return the old value and leave old <op> operand in memory - one macro row per flavour, a wrong operator in one row
+            # shows only here
+            fn = callees.get(row['name'])
+            if fn in bhtu.functions:
+                try:
+                    bad = cm.refute(bhtu, fn, row, 'big', small=chk.tier != 'thorough')
+                except cm.Unsupported as e:
+                    chk.note('%s: concrete evaluation not applicable (%s)' % (fn, e))
+                    continue
+                except PEError as e:
+                    bad = 'cannot be evaluated on concrete operands: %s' % e
+                chk.expect(not bad, 'R16.5', '%s@be:concrete' % row['name'], '%s in the mutex-based configuration: %s' % (row['name'], bad),
+                           'runtime/%s@be:bytes' % fn, detail_ok='agrees with the specification on the concrete family')
     chk.floor('R16.5', 49)
     # "atomic across threads": the threads of an instance family operate on one memory - every instance made for a thread aliases its
     # creator's descriptor of a module-defined shared memory, whatever the memory's limits (rule shared with C18 R18.4 / C06 R06.4)
